@@ -431,3 +431,12 @@ def _mpc_both(model, ob):
 REG.replays[f"{PMOD}:managed_provide_cache"] = _mpc_both
 
 import contracts.c03  # noqa: E402,F401  (make_isolated_context_copy passes the inject keys through: shared with C03)
+
+
+def _bounded_provide(tier, repo):
+    from harness.bounded_provide import run
+    return run(repo, 2)
+
+
+REG.bounded_check("bounded#inject_returns_the_nearest_enclosing_provide", P, _bounded_provide,
+                  note="ProvideNode.render / Component.inject / _render_impl are not under contract: 63 pages nesting provide blocks for 2 keys, consumers (single and sibling pairs) and a wrapper component to depth 3 x 2 modes are rendered for real and compared with the property (nearest enclosing provide; KeyError outside every provide; registries empty after a successful render)")
